@@ -24,19 +24,25 @@ def variants_of(binary, text, r, full=True):
 
     def with_head(t):
         return head + t if head else t
+    big = len(binary) > 700
     positions = range(len(binary))
+    if big:      # a large file: sampled positions in the directory, in every 1 KiB region of the payload and at both ends
+        n = len(binary)
+        per = 1 if not full else 6
+        positions = sorted(set(r.sample(range(9, 70), 6 * per)) | {r.randrange(a, min(a + 1024, n)) for a in range(70, n, 1024) for _ in range(per)}
+                           | set(range(n - 3 * per, n)))
     for p in positions:
         vals = {binary[p] ^ (1 << k) for k in range(8)} | {0, 0xFF, (binary[p] + 1) & 0xFF}
         vals.discard(binary[p])
-        if not full:
-            vals = set(r.sample(sorted(vals), 3))
+        if not full or big:
+            vals = set(r.sample(sorted(vals), 2 if big else 3))
         for v in sorted(vals):
             b = bytearray(binary)
             b[p] = v
             out.append(("byte%d=%02x" % (p, v), with_head(txt(bytes(b)))))
-    for n in range(len(binary)):
+    for n in (range(len(binary)) if not big else sorted(set(r.sample(range(len(binary)), 8)) | set(range(len(binary) - 4, len(binary))))):
         out.append(("binprefix%d" % n, with_head(txt(binary[:n]))))
-    for n in range(len(text)):
+    for n in (range(len(text)) if not big else sorted(set(r.sample(range(len(text)), 6)) | set(range(len(text) - 6, len(text))))):
         if full or n % 3 == 0 or n > len(text) - 40:
             out.append(("textprefix%d" % n, text[:n]))
     for suf in (b"\x00", b"\xff", b"\x00\x00", b"\x01"):
@@ -57,10 +63,13 @@ def _bf3_worker(args):
     binary = L.BF3_FILE_SIG + f.to_binary(5, key)
     auth = L.proj_file(f)
     rec = L.Rec()
+    # history: the same process first reads the authentic file WITHOUT MAC checking, then with; whatever the library may
+    # remember from those reads, every later read with checking on must still refuse damaged content
+    L.rec_read(rec, text, key, False, False, None, auth=auth, label="authentic-unchecked")
     L.rec_read(rec, text, key, True, False, None, auth=auth, label="authentic")
     for label, t in variants_of(binary, text, r, full):
         L.rec_read(rec, t, key, True, False, None, auth=auth, label=label)
-    for bit in range(128):
+    for bit in (range(128) if len(binary) <= 700 else (0, 77, 127)):
         k2 = bytearray(key)
         k2[bit // 8] ^= 1 << (bit % 8)
         L.rec_read(rec, text, bytes(k2), True, False, None, auth=auth, label="keybit%d" % bit)
@@ -74,6 +83,10 @@ def pool_files(r, tier):
         ({"k": "v"}, [({0x10: b"ab"}, bytes(range(1, 18)), 9, False), ({}, bytes(16), 16, False)]),
         ({}, []),                                                                          # no components
         ({"Configuration": "c"}, [({0xC3: b"\x03", 0xC2: b"\x02"}, bytes([9, 8, 7, 6, 5, 4, 3, 0]), 8, True)]),
+        # every value of the ENC tag other than "session key" is a plain component for the reader: firmware-key (01) and plain (00)
+        ({}, [({0xC2: b"\x01", 0xC3: b"\x02"}, bytes(range(30, 53)), 23, False), ({0xC2: b"\x00"}, b"\x01\x02\x03", 3, False)]),
+        # a payload longer than 4 KiB (several regions of any chunked MAC computation), damaged at sampled positions
+        ({}, [({0x11: b"big"}, bytes((j * 7 + j // 256) % 251 for j in range(4200 + 37)), 4237, False)]),
     ]
     if tier == "thorough":
         for _ in range(20):
@@ -100,7 +113,8 @@ def run(tier):
             raise MachineryError("vacuity self-test: damage is not visible without the MAC check")
         rep.cov["parts"]["selftests"].append("without MAC checking TLC finds silently accepted damage (the invariant is not vacuous)")
         files = pool_files(r, tier)
-        jobs = [(cm, comps, L.gen_key(r) if j else L.ZERO_KEY, r.randrange(1 << 30), True) for j, (cm, comps) in enumerate(files)]
+        jobs = [(cm, comps, L.gen_key(r) if j else L.ZERO_KEY, r.randrange(1 << 30), True if tier == "thorough" or sum(len(c["blob"]) for c in comps) < 600 else False)
+                for j, (cm, comps) in enumerate(files)]
         with mp.Pool(min(16, len(jobs))) as pool:
             lists = pool.map(_bf3_worker, jobs)
         rec = L.Rec()
